@@ -1,15 +1,328 @@
 package main
 
-// ghostBytes stands for a byte slice whose contents are a sequence of ghost values (gob stub, C11/C12).
+// Stub of encoding/gob + bytes.Buffer/Reader as a value channel (C11/C12, DESIGN.md §2.5):
+// Encode(v) appends a snapshot of the value to a ghost stream, Decode delivers the next element or io.EOF.
+// Byte layout, type descriptors and sizes are outside the model; Buffer.Len() is nondeterministic so that
+// block splitting happens at arbitrary points.
+
+import (
+	"fmt"
+	"go/types"
+	"strings"
+
+	"golang.org/x/tools/go/ssa"
+)
+
+// ghostBytes stands for a []byte whose contents are a sequence of encoded values.
 type ghostBytes struct {
 	items []value
-	sumT  *Term
 	id    int
+	sumT  *Term
 }
 
 func (g *ghostBytes) sum(m *machine) *Term {
-	if g.sumT != nil {
-		return g.sumT
+	if g.sumT == nil {
+		g.sumT = m.uf("xxh3_bytes", BV(64), mkBV(64, uint64(g.id)))
 	}
-	return mkBV(64, uint64(g.id))
+	return g.sumT
+}
+
+type ghostBuf struct { // *bytes.Buffer
+	items []value
+}
+
+type ghostStream struct { // the harness's io.Writer / io.Reader
+	blocks []value // snapshots (structure) of DataBlock values
+	pos    int
+}
+
+type ghostEnc struct {
+	buf    *ghostBuf
+	stream *ghostStream
+}
+
+type ghostDec struct {
+	stream *ghostStream
+	data   *ghostBytes
+	pos    int
+}
+
+type ghostReader struct {
+	data *ghostBytes
+}
+
+func box(o interface{}) *value {
+	p := new(value)
+	*p = o
+	return p
+}
+
+func unbox(v value) interface{} {
+	switch v := v.(type) {
+	case *value:
+		if v == nil {
+			return nil
+		}
+		return *v
+	case iface:
+		return unbox(v.v)
+	}
+	return v
+}
+
+func (m *machine) ioEOF() value {
+	if p := m.eng.prog.ImportedPackage("io"); p != nil {
+		if g := p.Var("EOF"); g != nil {
+			return *m.global(g)
+		}
+	}
+	panic(engineError{"io.EOF not available"})
+}
+
+// snapshot deep-copies an encodable value (through pointers) so that later mutation does not affect the stream.
+func snapshot(v value) value {
+	switch v := v.(type) {
+	case iface:
+		return snapshot(v.v)
+	case *value:
+		if v == nil {
+			return nil
+		}
+		if _, ok := (*v).(structure); ok {
+			return snapshot(*v)
+		}
+		return v
+	case structure:
+		out := make(structure, len(v))
+		for i := range v {
+			switch f := v[i].(type) {
+			case structure, array:
+				out[i] = snapshot(f)
+			default:
+				out[i] = f
+			}
+		}
+		return out
+	case array:
+		out := make(array, len(v))
+		for i := range v {
+			out[i] = snapshot(v[i])
+		}
+		return out
+	}
+	return v
+}
+
+// exportedCopy copies the exported fields of src (a snapshot) into the struct behind dst, as gob does.
+func exportedCopy(T types.Type, dst *value, src value) bool {
+	st, ok := T.Underlying().(*types.Struct)
+	if !ok {
+		if _, isS := src.(structure); isS {
+			return false
+		}
+		*dst = src
+		return true
+	}
+	d, ok1 := (*dst).(structure)
+	s, ok2 := src.(structure)
+	if !ok1 || !ok2 || len(d) != len(s) {
+		return false // gob reports a type mismatch when the wire type does not fit the target
+	}
+	for i := 0; i < st.NumFields(); i++ {
+		if st.Field(i).Exported() && fmt.Sprintf("%T", d[i]) != fmt.Sprintf("%T", s[i]) {
+			if !(isNil(d[i]) || isNil(s[i])) {
+				return false
+			}
+		}
+	}
+	for i := 0; i < st.NumFields(); i++ {
+		if st.Field(i).Exported() {
+			d[i] = copyVal(s[i])
+		}
+	}
+	return true
+}
+
+func registerGob() {
+	intrinsics["bytes.NewBuffer"] = func(fr *frame, a []value) value {
+		return box(&ghostBuf{})
+	}
+	intrinsics["(*bytes.Buffer).Bytes"] = func(fr *frame, a []value) value {
+		m := fr.m()
+		b := unbox(a[0]).(*ghostBuf)
+		m.ghostIDs++
+		return &ghostBytes{items: append([]value{}, b.items...), id: m.ghostIDs}
+	}
+	intrinsics["(*bytes.Buffer).Len"] = func(fr *frame, a []value) value {
+		m := fr.m()
+		b := unbox(a[0]).(*ghostBuf)
+		if len(b.items) == 0 {
+			return mkBV(64, 0)
+		}
+		if m.splitBlocks && m.choose(2, 'c') == 1 {
+			return mkBV(64, 1<<30) // "the buffer has reached the block size"
+		}
+		return mkBV(64, 1)
+	}
+	intrinsics["(*bytes.Buffer).Reset"] = func(fr *frame, a []value) value {
+		unbox(a[0]).(*ghostBuf).items = nil
+		return nil
+	}
+	intrinsics["bytes.NewReader"] = func(fr *frame, a []value) value {
+		gb, _ := a[0].(*ghostBytes)
+		if gb == nil {
+			gb = &ghostBytes{}
+		}
+		return box(&ghostReader{data: gb})
+	}
+	intrinsics["encoding/gob.NewEncoder"] = func(fr *frame, a []value) value {
+		switch o := unbox(a[0]).(type) {
+		case *ghostBuf:
+			return box(&ghostEnc{buf: o})
+		case *ghostStream:
+			return box(&ghostEnc{stream: o})
+		}
+		panic(engineError{fmt.Sprintf("gob stub: NewEncoder on %T", unbox(a[0]))})
+	}
+	intrinsics["(*encoding/gob.Encoder).Encode"] = func(fr *frame, a []value) value {
+		e := unbox(a[0]).(*ghostEnc)
+		snap := snapshot(a[1])
+		if e.buf != nil {
+			e.buf.items = append(e.buf.items, snap)
+		} else {
+			e.stream.blocks = append(e.stream.blocks, snap)
+		}
+		return iface{}
+	}
+	intrinsics["encoding/gob.NewDecoder"] = func(fr *frame, a []value) value {
+		switch o := unbox(a[0]).(type) {
+		case *ghostStream:
+			return box(&ghostDec{stream: o})
+		case *ghostReader:
+			return box(&ghostDec{data: o.data})
+		}
+		panic(engineError{fmt.Sprintf("gob stub: NewDecoder on %T", unbox(a[0]))})
+	}
+	intrinsics["(*encoding/gob.Decoder).Decode"] = func(fr *frame, a []value) value {
+		m := fr.m()
+		d := unbox(a[0]).(*ghostDec)
+		tgt := a[1].(iface)
+		var next value
+		if d.stream != nil {
+			if d.stream.pos >= len(d.stream.blocks) {
+				return m.ioEOF()
+			}
+			next = d.stream.blocks[d.stream.pos]
+			d.stream.pos++
+		} else {
+			if d.pos >= len(d.data.items) {
+				return m.ioEOF()
+			}
+			next = d.data.items[d.pos]
+			d.pos++
+		}
+		if _, bad := next.(ghostGarbage); bad {
+			return errIface(m, "gob: decoding error (damaged data)")
+		}
+		p, ok := tgt.v.(*value)
+		if !ok || p == nil {
+			panic(engineError{"gob stub: Decode target is not a pointer"})
+		}
+		if !exportedCopy(derefT(tgt.t), p, next) {
+			return errIface(m, "gob: type mismatch")
+		}
+		return iface{}
+	}
+	// harness API for ghost streams
+	vfAPI["vfGhostStream"] = func(fr *frame, a []value) value {
+		m := fr.m()
+		return iface{t: m.eng.ctxType, v: box(&ghostStream{})}
+	}
+	vfAPI["vfStreamReader"] = func(fr *frame, a []value) value {
+		st := unbox(a[0]).(*ghostStream)
+		st.pos = 0
+		return iface{t: fr.m().eng.ctxType, v: box(st)}
+	}
+	vfAPI["vfStreamLen"] = func(fr *frame, a []value) value {
+		return mkBV(64, uint64(len(unbox(a[0]).(*ghostStream).blocks)))
+	}
+	vfAPI["vfSplitBlocks"] = func(fr *frame, a []value) value {
+		fr.m().splitBlocks = bvOf(a[0]).IsTrue()
+		return nil
+	}
+	// vfStreamOp(stream, op, i, j): block-level faults
+	vfAPI["vfStreamOp"] = func(fr *frame, a []value) value {
+		m := fr.m()
+		st := unbox(a[0]).(*ghostStream)
+		op := int(m.concretize(bvOf(a[1]), "streamop"))
+		i := int(m.concretize(bvOf(a[2]), "streamop"))
+		j := int(m.concretize(bvOf(a[3]), "streamop"))
+		n := len(st.blocks)
+		if i < 0 || i >= n {
+			return falseT
+		}
+		fieldOf := func(b value, name string) *value {
+			s := b.(structure)
+			return &s[m.eng.dataBlockField(name)]
+		}
+		switch op {
+		case 0: // truncate: keep the first i blocks
+			st.blocks = st.blocks[:i]
+		case 1: // drop block i
+			st.blocks = append(append([]value{}, st.blocks[:i]...), st.blocks[i+1:]...)
+		case 2: // duplicate block i
+			nb := append(append([]value{}, st.blocks[:i+1]...), snapshot(st.blocks[i]))
+			st.blocks = append(nb, st.blocks[i+1:]...)
+		case 3: // swap blocks i and j
+			if j < 0 || j >= n {
+				return falseT
+			}
+			st.blocks[i], st.blocks[j] = st.blocks[j], st.blocks[i]
+		case 4: // retag block i
+			*fieldOf(st.blocks[i], "Type") = mkBV(8, uint64(j))
+		case 5: // damage the checksum field of block i
+			*fieldOf(st.blocks[i], "CheckSum") = m.fresh("damagedChecksum", BV(64))
+		case 6: // replace the payload of block i by the payload of block j (checksum field left alone)
+			if j < 0 || j >= n {
+				return falseT
+			}
+			*fieldOf(st.blocks[i], "Data") = *fieldOf(st.blocks[j], "Data")
+		case 7: // damage inside the payload of block i: items from j on are garbage (and the bytes differ)
+			gb, _ := (*fieldOf(st.blocks[i], "Data")).(*ghostBytes)
+			if gb == nil || j < 0 || j > len(gb.items) {
+				return falseT
+			}
+			m.ghostIDs++
+			ng := &ghostBytes{items: append(append([]value{}, gb.items[:j]...), ghostGarbage{}), id: m.ghostIDs}
+			*fieldOf(st.blocks[i], "Data") = ng
+		default:
+			return falseT
+		}
+		return trueT
+	}
+}
+
+type ghostGarbage struct{}
+
+func (e *engine) dataBlockField(name string) int {
+	e.dbOnce.Do(func() {
+		e.dbFields = map[string]int{}
+		pkg := e.pkgs["internal"]
+		for _, mem := range pkg.Members {
+			t, ok := mem.(*ssa.Type)
+			if !ok || !strings.HasPrefix(t.Name(), "DataBlock") {
+				continue
+			}
+			if st, ok := t.Type().Underlying().(*types.Struct); ok {
+				for i := 0; i < st.NumFields(); i++ {
+					e.dbFields[st.Field(i).Name()] = i
+				}
+			}
+		}
+	})
+	i, ok := e.dbFields[name]
+	if !ok {
+		panic(engineError{"DataBlock has no field " + name})
+	}
+	return i
 }
